@@ -22,6 +22,9 @@ def run(ctx):
     R.carried_buffer(ctx, "C16.5")
     R.size_accounting(ctx, "C16.1")
     R.exhaustion_guard(ctx, "C16.6")
+    R.existing_files_are_read(ctx, "C16.7")
+    from .conservation import zero_fill_conservation
+    zero_fill_conservation(ctx, "C16.8")
 
 
 MUTANTS = MUT_C16
